@@ -34,6 +34,8 @@ def contracts(repo):
         sp.ensures = [(l, t) for l, t in sp.ensures if l in C06_LABELS]
         items.append(sp)
     items.append(C07.router_request_spec())
+    from . import C15
+    items += C15.contracts(repo)          # an unroutable request is refused before any dispatch, with a non-zero status
     return items
 
 
@@ -186,9 +188,63 @@ def bounded(tier, seed):
                         break
             if bad:
                 violations.append(dict(key='raw pipelined %d requests' % n, observed=bad, required='one reply per request, in order, same sender context and session, service | 0x80 in null-address + data item'))
+    # (c) session-level commands: each gets exactly one reply frame with the same command; Unregister gets none and ends the session
+    from . import wire, netsim
+    import socket
+    for name, cmd, payload in (('ListServices', 0x04, b''), ('ListIdentity', 0x63, b''), ('ListInterfaces', 0x64, b''), ('Register', 0x65, struct.pack('<HH', 1, 0))):
+        with netsim.Server(tags) as srv:
+            s = socket.create_connection(('127.0.0.1', srv.port), timeout=3.0)
+            # the command, then a Read Tag so that a missing reply is observable as a mis-ordered / missing frame
+            s.sendall(wire.enip_frame(cmd, payload, context=b'CMDCMDCM') + wire.send_rr_data(wire.read_tag('A', 0, 1), session=7, context=b'NEXTNEXT'))
+            buf = b''
+            s.settimeout(1.5)
+            try:
+                while len(wire.split_frames(buf)[0]) < 2:
+                    c = s.recv(65536)
+                    if not c:
+                        break
+                    buf += c
+            except socket.timeout:
+                pass
+            s.close()
+        frames, rest = wire.split_frames(buf)
+        ev += 1
+        distinct.add(('cmd', name))
+        ok = len(frames) == 2 and struct.unpack('<H', frames[0][:2])[0] == cmd and frames[0][12:20] == b'CMDCMDCM' and frames[1][12:20] == b'NEXTNEXT'
+        if not ok:
+            violations.append(dict(key='%s then Read Tag' % name, observed='%d reply frames: %r' % (len(frames), [f[:2].hex() for f in frames]),
+                                   required='one reply per request, in order, same command and sender context'))
+    with netsim.Server(tags) as srv:
+        s = socket.create_connection(('127.0.0.1', srv.port), timeout=3.0)
+        s.sendall(wire.register())
+        hdr = b''
+        while len(hdr) < 28:
+            hdr += s.recv(28 - len(hdr))
+        sess = struct.unpack('<I', hdr[4:8])[0]
+        s.sendall(wire.unregister(sess))
+        s.settimeout(1.5)
+        try:
+            tail = s.recv(100)
+        except socket.timeout:
+            tail = b'timeout'
+        s.close()
+    ev += 1
+    distinct.add(('cmd', 'Unregister'))
+    if sess == 0 or tail != b'':
+        violations.append(dict(key='Register / Unregister', observed='session %r, after Unregister received %r' % (sess, tail),
+                               required='non-zero session handle; Unregister returns nothing and ends the session'))
+    # (d) an unroutable request (route path sent to a simple, non-routing device) is answered by one frame with a non-zero encapsulation status
+    from . import C15
+    for cfg, rq, accept in (('simple', [('port', 1, 0)], False), ('simple', None, True), ([{'port': 1, 'link': 0}], [('port', 1, 1)], False)):
+        ev += 1
+        distinct.add(('route', repr(cfg), repr(rq)))
+        st, vals = C15.e2e(cfg, rq)
+        if (st == 0) != accept:
+            violations.append(dict(key='personality %r request route %r' % (cfg, rq), observed='encapsulation status 0x%x' % st,
+                                   required='status 0' if accept else 'a non-zero encapsulation status'))
     return dict(evaluations=ev, distinct_nontrivial=len(distinct),
                 rule='(a) seeded operation lists (valid, out-of-range, wrong type mixed) through the real server over TCP: synchronous vs pipelined '
                      'depth 3/10 vs bundled: one result per operation, same order, same statuses/values; (b) hand-encoded SendRRData frames (reference '
                      'encoder written from the layout tables), N requests written before any reply is read: N replies in order, same sender context, '
-                     'session handle, service | 0x80; Register Session handle != 0; distinct = distinct (ops, depth, multiple) and N',
+                     'session handle, service | 0x80; Register Session handle != 0; (c) List Services / Identity / Interfaces / Register each followed by a Read Tag: two replies in order; Unregister: no reply, session ends; (d) unroutable requests get a non-zero encapsulation status; distinct = distinct (ops, depth, multiple), N, commands',
                 exhaustive=False, samples=samples, violations=violations[:20], seed=seed)
